@@ -65,9 +65,11 @@ pub struct Transcript {
 impl StepHook for Transcript {
     fn text_line(&mut self, line: &str) {
         // hash without the informative «message» of a panic
-        match (line.find('\u{ab}'), line.rfind('\u{bb}')) {
-            (Some(i), Some(j)) if j > i => {
-                self.dig.bytes(line[..i].as_bytes());
+        // ... and without the panic class: "every build panics" is agreement, whichever check fires first
+        match (line.find(" panic:"), line.find('\u{ab}'), line.rfind('\u{bb}')) {
+            (Some(p), Some(i), Some(j)) if j > i && i > p => {
+                self.dig.bytes(line[..p].as_bytes());
+                self.dig.bytes(b" panic");
                 self.dig.bytes(line[j + '\u{bb}'.len_utf8()..].as_bytes());
             }
             _ => self.dig.bytes(line.as_bytes()),
